@@ -129,6 +129,16 @@ def deps(variant, root, limit=400):
                 stack.append(v.content)
         elif isinstance(v, FnVal):
             callees.add(v.path)
+        elif v.__class__.__name__ == "ClosureV":
+            callees.add(v.path)
+            for f in v.captures:
+                push_val(f)
+        elif v.__class__.__name__ == "IterV":
+            for f in (v.a, v.b, v.c):
+                if f is not None:
+                    push_val(f)
+        elif v.__class__.__name__ == "SliceRef":
+            push_val(v.base)
 
     while stack and n < limit:
         e = stack.pop()
